@@ -35,7 +35,8 @@ namespace c16p {
 using std::string;
 using std::vector;
 
-static const int P_FD_BASE = 200;     // descriptor d lives on fd 200+d (fd order == index order)
+static int P_FD_BASE = 200;           // descriptor d lives on fd P_FD_BASE+d (fd order == index order);
+                                      // the payload may move the base to the boundary fd numbers (0.., ..FD_SETSIZE-1)
 static const int P_PEER_BASE = 300;   // its peer end on 300+d
 
 // ---- epoll_wait interposition: the kernel's ready list is re-ordered by fd (ascending/descending) so that
@@ -136,8 +137,13 @@ class p_run {
       } else {
         if (pipe(p)) abort();
       }
-      if (dup2(p[0], P_FD_BASE + d) < 0 || dup2(p[1], P_PEER_BASE + d) < 0) abort();
+      // the kernel hands out the lowest free numbers, which may be the very numbers we are about to place the
+      // descriptors on (fds 0..2): park both ends high up first
+      int q0 = fcntl(p[0], F_DUPFD, 800), q1 = fcntl(p[1], F_DUPFD, 800);
+      if (q0 < 0 || q1 < 0) abort();
       close(p[0]); close(p[1]);
+      if (dup2(q0, P_FD_BASE + d) < 0 || dup2(q1, P_PEER_BASE + d) < 0) abort();
+      close(q0); close(q1);
       int fd = P_FD_BASE + d;
       fcntl(fd, F_SETFL, fcntl(fd, F_GETFL, 0) | O_NONBLOCK);
       if (cfg[d].conn) {
@@ -277,6 +283,28 @@ class p_run {
 string handle(const string &payload) {
   vector<string> t = vh::split(payload);
   if (t.size() < 2 || t[0] != "P") return "bad-payload";
+  // "<class>@<base>": descriptors live on fds base, base+1, ...  (default 200)
+  int fd_base = 200;
+  size_t at = t[1].rfind('@');
+  if (at != string::npos) fd_base = atoi(t[1].c_str() + at + 1);
+  size_t ndesc = 0;
+  for (size_t k = 2; k < t.size() && t[k] != "/"; k++) ndesc++;
+  bool low = fd_base < 3;
+  if ((low && fd_base + ndesc > 3) || (!low && fd_base < 200) || fd_base + ndesc > FD_SETSIZE) return "bad-fd-base";
+  // descriptors on fds 0..2 replace stdin/stdout/stderr for the duration of the case
+  struct StdGuard {
+    bool on; int saved[3];
+    explicit StdGuard(bool o) : on(o) {
+      if (!on) return;
+      fflush(stdout); fflush(stderr);
+      for (int k = 0; k < 3; k++) saved[k] = fcntl(k, F_DUPFD, 700);
+    }
+    ~StdGuard() {
+      if (!on) return;
+      for (int k = 0; k < 3; k++) { dup2(saved[k], k); close(saved[k]); }
+    }
+  } guard(low);
+  P_FD_BASE = fd_base;
   vector<p_desc> cfg;
   vector<p_op> ops;
   size_t i = 2;
